@@ -254,7 +254,11 @@ theorem fmap1_step (E : ℝ → ℝ) (M : ℝ) (imax i : Nat) (q : LP) :
       | some y => if i = imax then none else some (XR.fin (E (y - M))) := by
   cases q with
   | none => simp [ln_sum_exp_fmap1, ln_zero]
-  | some y => by_cases h : i = imax <;> simp [ln_sum_exp_fmap1, ln_zero, h]
+  | some y =>
+    by_cases h : i = imax
+    · subst h; simp [ln_sum_exp_fmap1, ln_zero]
+    · have h2 : ¬ imax = i := fun e => h e.symm
+      simp [ln_sum_exp_fmap1, ln_zero, h, h2]
 
 @[simp] theorem fmap1_ninf (E : ℝ → ℝ) (M : ℝ) (imax i : Nat) :
     ln_sum_exp_fmap1 (xrOps E) (XR.fin M) imax (i, XR.ninf) = none := fmap1_step E M imax i none
